@@ -454,19 +454,31 @@ theorem isZero_not_inf {n : Bool} (h : IsZero (.inf n)) : False := by
   obtain ⟨fl, h⟩ := h
   cases h
 
-theorem evalBin_inf_inf (op : BinOp) (m n : Bool) :
-    evalBin op (.inf m) (.inf n) = .error .typeError := by
-  cases op <;> simp [evalBin, num?]
+theorem evalBin_inf_inf_mul (m n : Bool) :
+    evalBin .mul (.inf m) (.inf n) = .error .typeError := by
+  simp [evalBin, num?]
+
+theorem evalBin_inf_inf_div (m n : Bool) :
+    evalBin .div (.inf m) (.inf n) = .error .typeError := by
+  simp [evalBin, num?]
+
+theorem evalBin_inf_inf_add (m n : Bool) :
+    evalBin .add (.inf m) (.inf n) = if m = n then .ok (.inf m) else .error .other := by
+  simp [evalBin, num?]
+
+theorem evalBin_inf_inf_sub (m n : Bool) :
+    evalBin .sub (.inf m) (.inf n) = if m = n then .error .other else .ok (.inf m) := by
+  simp [evalBin, num?]
 
 theorem num?_inf (n : Bool) : num? (.inf n) = none := rfl
 
 theorem evalBin_inf_num_add {y : Val} {q : Rat} {fy : Bool} (n : Bool)
     (hy : num? y = some (q, fy)) : evalBin .add (.inf n) y = .ok (.inf n) := by
-  simp [evalBin, num?_inf, hy]
+  cases y <;> simp [num?] at hy <;> simp [evalBin, num?]
 
 theorem evalBin_inf_num_sub {y : Val} {q : Rat} {fy : Bool} (n : Bool)
     (hy : num? y = some (q, fy)) : evalBin .sub (.inf n) y = .ok (.inf n) := by
-  simp [evalBin, num?_inf, hy]
+  cases y <;> simp [num?] at hy <;> simp [evalBin, num?]
 
 theorem evalBin_inf_num_mul {y : Val} {q : Rat} {fy : Bool} (n : Bool)
     (hy : num? y = some (q, fy)) :
@@ -512,8 +524,10 @@ theorem add_shape {x y v : Val} (hx : IsNonneg x) (hy : IsNonneg y)
   · rw [evalBin_inf_num_add _ hy] at h
     cases h
     exact Or.inr ⟨Or.inl rfl, rfl⟩
-  · rw [evalBin_inf_inf] at h
+  · rw [evalBin_inf_inf_add] at h
+    simp only [if_true] at h
     cases h
+    exact Or.inr ⟨Or.inl rfl, rfl⟩
 
 theorem isNonneg_inf : IsNonneg (.inf false) := Or.inr rfl
 theorem isPos_inf : IsPos (.inf false) := Or.inr rfl
@@ -570,7 +584,7 @@ theorem mul_shape {x y v : Val} (hx : IsNonneg x) (hy : IsNonneg y)
     · rw [if_neg (not_lt.mpr hq)] at h
       cases h
       exact Or.inr rfl
-  · rw [evalBin_inf_inf] at h
+  · rw [evalBin_inf_inf_mul] at h
     cases h
 
 theorem mul_nn {x y v : Val} (hx : IsNonneg x) (hy : IsNonneg y)
@@ -636,7 +650,7 @@ theorem div_shape {x y v : Val} (hx : IsNonneg x) (hy : IsNonneg y)
     exact Or.inr rfl
   · rw [evalBin_inf_num_div _ hy] at h
     cases h
-  · rw [evalBin_inf_inf] at h
+  · rw [evalBin_inf_inf_div] at h
     cases h
 
 theorem div_nn {x y v : Val} (hx : IsNonneg x) (hy : IsNonneg y)
@@ -806,8 +820,12 @@ theorem sub_le {x y v t : Val} (hx : numLe x t) (hy : IsNonneg y)
       · rw [evalBin_inf_num_sub _ hy] at h
         cases h
         exact ⟨a, b, ha, hb, hab⟩
-      · rw [evalBin_inf_inf] at h
-        cases h
+      · rw [evalBin_inf_inf_sub] at h
+        cases n
+        · simp at h
+        · simp at h
+          subst h
+          exact ⟨.lo, b, rfl, hb, hlo b⟩
     all_goals (simp [ord?, num?] at ha)
 
 theorem avBin_sound {tn : Bool} {t : Val} (ht : tn = true → IsNonneg t) {op : BinOp} {a b : AV}
